@@ -661,6 +661,29 @@ static void kernel_line(char *line)
       for (k = 0; k < nout && k < 4; k++) pr_bytes(out[k], outw);
     }
     putchar('\n');
+  } else if (!strcmp(cmd, "idctfst") || !strcmp(cmd, "idctint") || !strcmp(cmd, "fdctint")) {
+    /* idctfst/idctint: 64 coefficients | 64 multipliers (dct_table entries)   fdctint: 64 level-shifted samples */
+    int ok, s; short *cf = (short *)B[0], *qt = (short *)B[1]; static short in[64], qq[64]; jpeg_component_info comp; JSAMPROW o[8];
+    for (i = 0; i < 64; i++) in[i] = (short)nextnum(&p, &ok);
+    while (*p == ' ') p++; if (*p == '|') p++;
+    for (i = 0; i < 64; i++) qq[i] = (short)nextnum(&p, &ok);
+    memset(&comp, 0, sizeof(comp)); comp.dct_table = qt;
+    for (s = 1; s >= 0; s--) {
+      memcpy(cf, in, 128); memcpy(qt, qq, 128); memset(B[2], 0x55, 512);
+      for (k = 0; k < 8; k++) o[k] = B[2] + k * 64;
+      printf(s ? "S" : " | C");
+      if (cmd[0] == 'f') { if (s) jsimd_fdct_islow(cf); else jpeg_fdct_islow(cf); for (i = 0; i < 64; i++) printf(" %d", cf[i]); }
+      else {
+        if (cmd[4] == 'f') { if (s) jsimd_idct_ifast(&idc, &comp, cf, o, 0); else jpeg_idct_ifast(&idc, &comp, cf, o, 0); }
+        else { if (s) jsimd_idct_islow(&idc, &comp, cf, o, 0); else jpeg_idct_islow(&idc, &comp, cf, o, 0); }
+        for (k = 0; k < 8; k++) pr_bytes(o[k], 8);
+      }
+    }
+    putchar('\n');
+  } else if (!strcmp(cmd, "rangelimit")) {
+    JSAMPLE *rl = idc.sample_range_limit + CENTERJSAMPLE; int s;
+    for (s = 1; s >= 0; s--) { printf(s ? "S" : " | C"); for (i = 0; i < 1024; i++) printf(" %d", rl[i]); }
+    putchar('\n');
   } else if (!strcmp(cmd, "fdctfst")) {
     /* 64 level-shifted samples */
     int ok, s; short *d = (short *)B[0]; static short in[64];
